@@ -10,7 +10,7 @@
             raw default handed to convert_value)
    - loader: _load_yaml_or_json / _get_document (openapi_python_client/__init__.py:330-362).
    Not modelled (other properties own them): the conversion of defaults (C13; the raw default is carried), enum member keys
-   (C14), the properties inside an inline model (C15/graph; TModel is a leaf), prefixItems, schema-state side effects
+   (C14), the properties inside an inline model (C15/graph; TModel is a leaf), the in-place growth of prefixItems when one array schema object is built twice, schema-state side effects
    (classes_by_name collisions, models_to_process). *)
 From Coq Require Import NArith ZArith List Bool.
 Import ListNotations.
@@ -37,27 +37,28 @@ Definition o_none : other := {| o_const := false; o_props := false; o_title := N
 Inductive sch :=
 | SRef (r : str)
 | SSch (ty : tyspec) (nullable : bool) (enum : list jval)       (* enum = [] : keyword absent (min_length=1 in the validator) *)
-       (anyOf oneOf allOf : list sch) (items : option sch) (fmt : option str) (dflt : option jval) (o : other).
+       (anyOf oneOf allOf : list sch) (items : option sch) (prefix : list sch)      (* prefix = prefixItems (3.1 tuple arrays) *)
+       (fmt : option str) (dflt : option jval) (o : other).
 
 (* ------------------------------------------------------------------ validators *)
-Definition null_sch : sch := SSch (TyOne JTNull) false [] [] [] [] None None None o_none.
+Definition null_sch : sch := SSch (TyOne JTNull) false [] [] [] [] None [] None None o_none.
 Definition mem_jty (t : jty) (l : list jty) : bool := existsb (jty_eqb t) l.
 
 (* handle_nullable on one schema object whose children are already validated. The flag itself stays set (nothing reads it
    after validation: the harness checks that schema.py is the only reader), so a second run sees it again. *)
-Definition hn (ty : tyspec) (nl : bool) (en : list jval) (any one all : list sch) (items : option sch)
+Definition hn (ty : tyspec) (nl : bool) (en : list jval) (any one all : list sch) (items : option sch) (pfx : list sch)
               (fmt : option str) (d : option jval) (o : other) : sch :=
-  if negb nl then SSch ty nl en any one all items fmt d o
+  if negb nl then SSch ty nl en any one all items pfx fmt d o
   else match ty with
-       | TyOne t => SSch (TyList [t; JTNull]) nl en any one all items fmt d o
-       | TyList l => SSch (TyList (if mem_jty JTNull l then l else l ++ [JTNull])) nl en any one all items fmt d o
+       | TyOne t => SSch (TyList [t; JTNull]) nl en any one all items pfx fmt d o
+       | TyList l => SSch (TyList (if mem_jty JTNull l then l else l ++ [JTNull])) nl en any one all items pfx fmt d o
        | TyAbsent =>
            match one, any, all with
-           | _ :: _, _, _ => SSch TyAbsent nl en any (one ++ [null_sch]) all items fmt d o
-           | [], _ :: _, _ => SSch TyAbsent nl en (any ++ [null_sch]) one all items fmt d o
+           | _ :: _, _, _ => SSch TyAbsent nl en any (one ++ [null_sch]) all items pfx fmt d o
+           | [], _ :: _, _ => SSch TyAbsent nl en (any ++ [null_sch]) one all items pfx fmt d o
            | [], [], _ :: _ =>
-               SSch TyAbsent nl en any [null_sch; SSch TyAbsent false [] [] [] all None None None o_none] [] items fmt d o
-           | [], [], [] => SSch TyAbsent nl en any one all items fmt d o
+               SSch TyAbsent nl en any [null_sch; SSch TyAbsent false [] [] [] all None [] None None o_none] [] items pfx fmt d o
+           | [], [], [] => SSch TyAbsent nl en any one all items pfx fmt d o
            end
        end.
 
@@ -65,8 +66,8 @@ Definition hn (ty : tyspec) (nl : bool) (en : list jval) (any one all : list sch
 Fixpoint pre (s : sch) : sch :=
   match s with
   | SRef r => SRef r
-  | SSch ty nl en any one all items fmt d o =>
-      hn ty nl en (map pre any) (map pre one) (map pre all) (option_map pre items) fmt d o
+  | SSch ty nl en any one all items pfx fmt d o =>
+      hn ty nl en (map pre any) (map pre one) (map pre all) (option_map pre items) (map pre pfx) fmt d o
   end.
 
 (* a schema held directly by a non-Schema object (components.schemas.<name>, the schema of a parameter, media type or header object):
@@ -74,7 +75,7 @@ Fixpoint pre (s : sch) : sch :=
 Definition hn_again (s : sch) : sch :=
   match s with
   | SRef r => SRef r
-  | SSch ty nl en any one all items fmt d o => hn ty nl en any one all items fmt d o
+  | SSch ty nl en any one all items pfx fmt d o => hn ty nl en any one all items pfx fmt d o
   end.
 Definition pre_at (top : bool) (s : sch) : sch := if top then hn_again (pre s) else pre s.
 
@@ -187,11 +188,14 @@ Definition ty_is (ty : tyspec) (t : jty) : bool := match ty with TyOne u => jty_
 Definition ty_is_list (ty : tyspec) : bool := match ty with TyList _ => true | _ => false end.
 Definition nonempty {A : Type} (l : list A) : bool := match l with [] => false | _ => true end.
 
+Definition array_members (kitems : option kid) (kprefix : list kid) : list kid :=
+  kprefix ++ match kitems with Some k => [k] | None => [] end.
+
 (* ---- the dispatch chain of property_from_data after the single-reference test, in the order of the code.
    enum_case: what the enum branch returns when the enum keyword is present (None = keyword absent);
    tykids: the copies of this schema made for the members of a type list. *)
 Definition dispatch (c : cfg) (parent : str) (ty : tyspec) (enum_case : option tree) (tykids : list kid)
-                    (kany kone : list kid) (has_all : bool) (kitems : option kid) (fmt : option str)
+                    (kany kone : list kid) (has_all : bool) (kitems : option kid) (kprefix : list kid) (fmt : option str)
                     (d : option jval) (o : other) (name : str) : tree :=
   if ty_is ty JBoolean then TLeaf LBool name d
   else match enum_case with
@@ -204,19 +208,22 @@ Definition dispatch (c : cfg) (parent : str) (ty : tyspec) (enum_case : option t
   else if ty_is ty JInteger then TLeaf LInt name d
   else if ty_is ty JTNull then TLeaf LNone name None
   else if ty_is ty JArray then
-         match kitems with
-         | None => TErr                                  (* type array must have items or prefixItems defined *)
-         | Some k => let i := k (item_name name) in if is_err i then TErr else TList name i
+         (* ListProperty.build: items = prefixItems + [items]; one element: that schema; several: Schema(anyOf=items).
+            No member is ever dropped or merged, equal ones included. *)
+         match array_members kitems kprefix with
+         | [] => TErr                                   (* type array must have items or prefixItems defined *)
+         | [k] => let i := k (item_name name) in if is_err i then TErr else TList name i
+         | ks => let i := union_build (item_name name) ks None in if is_err i then TErr else TList name i
          end
   else if ty_is ty JObject || has_all || (match ty with TyAbsent => o_props o | _ => false end) then TModel name (class_of c parent o name)
   else TLeaf LAny name d
   end.
 
 (* data.model_copy(update={"type": t, "default": None}) sent through property_from_data: the copy keeps anyOf/oneOf *)
-Definition type_copies (c : cfg) (parent : str) (ty : tyspec) (kany kone : list kid) (has_all : bool) (kitems : option kid)
+Definition type_copies (c : cfg) (parent : str) (ty : tyspec) (kany kone : list kid) (has_all : bool) (kitems : option kid) (kprefix : list kid)
                        (fmt : option str) (o : other) : list kid :=
   match ty with
-  | TyList l => map (fun t => dispatch c parent (TyOne t) None [] kany kone has_all kitems fmt None o) l
+  | TyList l => map (fun t => dispatch c parent (TyOne t) None [] kany kone has_all kitems kprefix fmt None o) l
   | _ => []
   end.
 
@@ -232,7 +239,7 @@ Definition k_null : kid := fun n => TLeaf LNone n None.       (* Schema(type=nul
 
 (* the enum branch: enum = the (non-empty) keyword value *)
 Definition enum_branch (c : cfg) (parent : str) (ty : tyspec) (enum : list jval) (kany kone : list kid) (has_all : bool)
-                       (kitems : option kid) (fmt : option str) (d : option jval) (o : other) (name : str) : tree :=
+                       (kitems : option kid) (kprefix : list kid) (fmt : option str) (d : option jval) (o : other) (name : str) : tree :=
   match enum_build enum with
   | BNoneProp => TLeaf LNone name (Some (JStr s_None))
   | BMixed | BUnsupported => TErr
@@ -241,29 +248,35 @@ Definition enum_branch (c : cfg) (parent : str) (ty : tyspec) (enum : list jval)
       (* data.oneOf = [Schema(type=null), copy(enum=rest, default=data.default)]; data.enum = None; UnionProperty.build(data):
          the old oneOf is overwritten on data (the copy keeps it but, holding an enum, never looks at it) *)
       let kone' := [k_null; enum_direct c parent vt vals d o] in
-      union_build name (kany ++ kone' ++ type_copies c parent ty kany kone' has_all kitems fmt o) d
+      union_build name (kany ++ kone' ++ type_copies c parent ty kany kone' has_all kitems kprefix fmt o) d
   end.
 
 Definition pfd (c : cfg) (parent : str) (ty : tyspec) (enum : list jval) (kany kone : list kid) (has_all : bool)
-               (kitems : option kid) (fmt : option str) (d : option jval) (o : other) (name : str) : tree :=
+               (kitems : option kid) (kprefix : list kid) (fmt : option str) (d : option jval) (o : other) (name : str) : tree :=
   dispatch c parent ty
-           (match enum with [] => None | _ => Some (enum_branch c parent ty enum kany kone has_all kitems fmt d o name) end)
-           (type_copies c parent ty kany kone has_all kitems fmt o)
-           kany kone has_all kitems fmt d o name.
+           (match enum with [] => None | _ => Some (enum_branch c parent ty enum kany kone has_all kitems kprefix fmt d o name) end)
+           (type_copies c parent ty kany kone has_all kitems kprefix fmt o)
+           kany kone has_all kitems kprefix fmt d o name.
 
 Fixpoint build (c : cfg) (e : env) (parent : str) (s : sch) {struct s} : kid :=
   match s with
   | SRef r => fun name => ref_build e r name None
-  | SSch ty nl en any one all items fmt d o =>
+  | SSch ty nl en any one all items pfx fmt d o =>
       match all ++ any ++ one with
       | [SRef r] => fun name => ref_build e r name d            (* single-reference wrapper: every other keyword is ignored *)
       | _ => pfd c parent ty en (map (build c e parent) any) (map (build c e parent) one) (nonempty all)
-                 (option_map (build c e parent) items) fmt d o
+                 (option_map (build c e parent) items) (map (build c e parent) pfx) fmt d o
       end
   end.
 
 (* top = the schema sits directly under a non-Schema object *)
 Definition norm (c : cfg) (e : env) (parent : str) (top : bool) (s : sch) (name : str) : tree := build c e parent (pre_at top s) name.
+
+(* two schemas are interchangeable as nested sub-schemas when they build the same tree under every name *)
+Definition equiv (c : cfg) (e : env) (parent : str) (a b : sch) : Prop :=
+  forall n, norm c e parent false a n = norm c e parent false b n.
+Definition oequiv (c : cfg) (e : env) (parent : str) (a b : option sch) : Prop :=
+  match a, b with None, None => True | Some x, Some y => equiv c e parent x y | _, _ => False end.
 
 (* ------------------------------------------------------------------ guards *)
 (* enum-with-null == explicit union: outside a type list (a nullable flag on a typed schema becomes one) *)
@@ -316,11 +329,11 @@ Definition other_eqb (a b : other) : bool :=
 Fixpoint sch_eqb (a b : sch) {struct a} : bool :=
   match a, b with
   | SRef r, SRef r' => str_eqb r r'
-  | SSch ty nl en any one all items fmt d o, SSch ty' nl' en' any' one' all' items' fmt' d' o' =>
+  | SSch ty nl en any one all items pfx fmt d o, SSch ty' nl' en' any' one' all' items' pfx' fmt' d' o' =>
       let go := fix go (x y : list sch) : bool :=
                   match x, y with [], [] => true | t :: x', u :: y' => sch_eqb t u && go x' y' | _, _ => false end in
       tyspec_eqb ty ty' && Bool.eqb nl nl' && list_eqb jval_eqb en en' && go any any' && go one one' && go all all' &&
-      match items, items' with None, None => true | Some i, Some i' => sch_eqb i i' | _, _ => false end &&
+      match items, items' with None, None => true | Some i, Some i' => sch_eqb i i' | _, _ => false end && go pfx pfx' &&
       opt_str_eqb fmt fmt' && opt_jval_eqb d d' && other_eqb o o'
   | _, _ => false
   end.
